@@ -211,6 +211,10 @@ def run_check(mod, tier, seed, nproc=None):
     for sig, e in sorted(known_hits.items()):
         print("KNOWN-FINDING: property=%s %s [%d case(s), sig=%s]" % (prop, e["k"]["what"], e["n"], sig))
     rdir = os.path.join(VERIF, "replays", prop)
+    if os.path.isdir(rdir):
+        for fn in os.listdir(rdir):
+            if fn.endswith(".json"):
+                os.unlink(os.path.join(rdir, fn))
     per_sig = {}
     vlines = []
     for fam, params, f in violations:
